@@ -12,7 +12,8 @@ def plans(tier):
     if tier == "quick":
         return [dict(gens="star,hole,collapse,rect,spiral", variants="base", n=6000, W=6, nmax=14, bias=0.6, seed=s),
                 dict(gens="star,hole", variants="base", n=5000, W=4, nmax=20, bias=0.85, seed=s + 1),
-                dict(gens="star", variants="base", n=3000, W=3, nmax=24, bias=0.95, seed=s + 2)]
+                dict(gens="star", variants="base", n=3000, W=3, nmax=24, bias=0.95, seed=s + 2),
+                dict(gens="spiral", variants="base", n=1200, W=10, nmax=12, bias=0.5, seed=s + 4)]     # routed boundaries that repeat whole runs
     return [dict(gens="star,hole,collapse,rect", variants="base", n=70000, W=6, nmax=16, bias=0.6, seed=s),
             dict(gens="star,hole", variants="base", n=30000, W=4, nmax=24, bias=0.85, seed=s + 1),
             dict(gens="star,hole,collapse,spiral", variants="base", n=20000, W=8, nmax=24, bias=0.5, seed=s + 2),
